@@ -104,6 +104,38 @@ CLAIMED = {
         note=COMMON_NOTE + "Composition theorem in progress.",
         technique="Coq model + proved codec round trip + three-way correspondence",
     ),
+
+    "C04": dict(
+        category="other",
+        text=("Bit-exact Flocq binary32 model of the BM25 kernel (incl. the (float)(1.0-(double)b) step and the tf==0 guard) "
+              "composed with the index model's statistics; scores compared as float32 bit patterns with the real score(), "
+              "and against a float64 evaluation of the formula on the spec's statistics (1e-5 relative, exact zero pattern, "
+              "finite); a recording similarity checks the statistics handed over. Theorems (zero pattern, finiteness, "
+              "legacy = (k1+1) * modern over R, idf > 0) are being added to Props/C04.v."),
+        design_ref="DESIGN.md 7 (C04)",
+        note=COMMON_NOTE + "numpy log (idf) is an input; IEEE-754 conformance of the CPU; accuracy bound not proved.",
+        technique="Flocq binary32 model + three-way correspondence (proofs over binary32 and R in progress)",
+    ),
+    "C08": dict(
+        category="other",
+        text=("The batched indexing pipeline (batches_of, per-batch build with doc-id offset, per-term concatenate+sort, "
+              "length concatenation) is part of the Coq model; the check builds the real index under batch sizes 1..n+1, "
+              "1..8 workers, FORCED completion orders of the futures, tiny switch intervals, GIL-yielding tokenizers, "
+              "cache/autowarm/avoid_copies/data_dir settings and compares every answer with the single-batch index, the "
+              "model and the spec. Batch-independence theorem in progress; real thread interleavings are not modelled."),
+        design_ref="DESIGN.md 7 (C08)",
+        note=COMMON_NOTE + "TermDict.add_term assumed atomic under the GIL; ThreadPoolExecutor not modelled.",
+        technique="Coq model of batching + forced-schedule differential check",
+    ),
+    "C16": dict(
+        category="other",
+        text=("Coq model of the aligned position-range filter (validation, shifted bucket bounds, payload filter, typed "
+              "empty results) feeding the term and phrase paths, compared three-way with the real termfreqs(min_posn, "
+              "max_posn) and the spec `occurrences with all offsets inside the range`; unaligned bounds must raise."),
+        design_ref="DESIGN.md 7 (C16)",
+        note=COMMON_NOTE + "Theorem (filter = bucket range) in progress.",
+        technique="Coq model + three-way correspondence",
+    ),
 }
 
 NOT_YET = "no check registered in this revision (model/proof under construction; see DESIGN.md section 7)"
